@@ -173,8 +173,12 @@ pub fn ttl_for_sig(
     let orig_ttl = sig.data().original_ttl();
     let ttl = min(ttl, orig_ttl);
 
-    let until_expired =
-        sig.data().expiration().into_int() - Timestamp::now().into_int();
+    // The signature may have expired since it was checked.
+    let until_expired = sig
+        .data()
+        .expiration()
+        .into_int()
+        .saturating_sub(Timestamp::now().into_int());
     let expire_ttl = Ttl::from_secs(until_expired);
     min(ttl, expire_ttl)
 }
